@@ -2,23 +2,32 @@ import LiquerModel.Conc
 import LiquerModel.Handlers.Eval
 
 /-
-`conc.run <keep:0|1> <defaults> <schedule: i,i,i… | -> <hex query text>…`
-Answer: per thread `outcome # calls # trace`, then the final data-bearing cache content; parts separated by ` | `.
-Trace entries (pre-emption points): `G:<hexkey>`, `S:<hexkey>`, `R:<hexkey>`.
+`conc.replay <keep:0|1> <defaults> <events: e,e,… | -> <hex query text>…`
+  event := `<i>` (thread i performs its next own cache operation: get / store / remove, or finishes)
+         | `m.<hexkey>.<hexstatus>` (somebody writes metadata: an environment step)
+  The harness sends the global sequence of cache operations the implementation performed under its scheduler.
+Answer: per thread `outcome # calls # own operations`, then the final data-bearing cache content; parts separated by ` | `.
+Own operations: `G:<hexkey>`, `S:<hexkey>`, `R:<hexkey>`.
 -/
 namespace Liquer.Handlers
 open Liquer Liquer.Proto
 
-/-- the trace shows the pre-emption points only -/
+/-- the trace shows the thread's own operations only -/
 def renderPoint : COp → Option String
   | .get k => some ("G:" ++ hexS k)
   | .store st => some ("S:" ++ hexS st.query)
   | .remove k => some ("R:" ++ hexS k)
   | .storeMeta _ _ => none
 
+def evOf (s : String) : Option Ev :=
+  match s.splitOn "." with
+  | ["m", k, st] => some (.meta_ (hexToChars k.toList) (hexToChars st.toList))
+  | [i] => i.toNat?.map Ev.thread
+  | _ => none
+
 def concH (cmd : String) (args : List String) : Option String :=
   match cmd, args with
-  | "conc.run", keep :: dflt :: sched :: qs => some <|
+  | "conc.replay", keep :: dflt :: evs :: qs => some <|
     let run (sentinel : Char) : String :=
       let env : Env := { reg := Gen.registry, defaults := kvOf dflt, dec := decWith sentinel }
       -- a text that does not parse: `evaluate` raises before any cache operation
@@ -27,15 +36,15 @@ def concH (cmd : String) (args : List String) : Option String :=
         match parse env.dec t with
         | some q => ({ q := q, raw := t } : Thread)
         | none => ({ q := .mk [] false, raw := t, result := some .parseError } : Thread))
-      let c0 : Config := startAll env { shared := { metaKeepsData := keep == "1" }, threads := threads }
-      let schedule : List Nat := if sched == "-" then [] else (sched.splitOn ",").filterMap String.toNat?
-      let c1 := runSchedule env c0 schedule
+      let c0 : Config := { shared := { metaKeepsData := keep == "1" }, threads := threads }
+      let events : List Ev := if evs == "-" then [] else (evs.splitOn ",").filterMap evOf
+      let c1 := runEvents env c0 events
       let c2 := finishAll env 100000 c1
       let perThread := c2.threads.map (fun t =>
         let (ow, _) := t.run env
         (match t.result with | some o => renderOutcome o | none => "UNFINISHED") ++ " # " ++
           String.intercalate "," (t.calls.map String.ofList) ++ " # " ++
-          String.intercalate "," ((ow.trace.take t.done).filterMap renderPoint))
+          String.intercalate "," (((ownOps ow.trace).take t.done).filterMap renderPoint))
       String.intercalate " | " (perThread ++ [renderCache c2.shared])
     let a := run (Char.ofNat 0xFFFD)
     let b := run (Char.ofNat 0xFFFC)
